@@ -9,6 +9,9 @@ themselves; every other byte is `~hh` (two lower-case hex digits; `~00` is allow
                            (hasPrefix/hasSuffix take the pattern as `const char*`: `cstr y` = y up to its first NUL)
   f <fmt> <arg>...      -> <formatString fmt args> | ERR:Exception
                            arg = d:<int> | l:<long> | u:<unsigned> | c:<char code> | w:<wint_t code> | s:<count>:<piece>
+  tp <p> <r> | tq <p> <0|1> <r> | tc <base> <p> <r>
+                        -> <processPath p> | <prettyPath p isDir> | <concatPaths base p>   (documentation rows; <r> is
+                           the documented result, compared by the harness oracle and by the theorems doc_table_*)
   F <width>             -> ok | ERR:Exception : outcome class of formatString("%<width>d", 7), whose result is too long
                            to build; computed with `formatReturns` (tied to formatString by theorem formatString_outcome)
 
@@ -74,6 +77,19 @@ def handle (line : String) : String :=
       " ".intercalate [encStr (concatPaths x y), showRel (relativePath x y), showB (hasPrefix x (cstr y)),
                        showB (hasSuffix x (cstr y))]
     | _, _ => "bad-op"
+  | ["tp", p, r] =>
+    match decStr p, decStr r with
+    | some p, some _ => match processPathC? p with | some c => encStr c | none => "FUEL-EXHAUSTED"
+    | _, _ => "bad-op"
+  | ["tq", p, d, r] =>
+    match decStr p, decStr r with
+    | some p, some _ =>
+      if d == "0" then encStr (prettyPath p false) else if d == "1" then encStr (prettyPath p true) else "bad-op"
+    | _, _ => "bad-op"
+  | ["tc", b, p, r] =>
+    match decStr b, decStr p, decStr r with
+    | some b, some p, some _ => encStr (concatPaths b p)
+    | _, _, _ => "bad-op"
   | "f" :: fmt :: args =>
     match decStr fmt, args.mapM parseArg with
     | some fmt, some args =>
